@@ -98,5 +98,21 @@ def truetype_trace(origin, data, maxobs=500):
     pick.update(ch for _g, ch in invs)
     obs = [[c, c2g[c]] for c in sorted(pick)[:maxobs + 200] if c in c2g]
     okset = {tuple(o) for o in obs}
-    return {"origin": origin, "hascmap": hascmap, "subs": subs, "result": result, "obs": obs,
+    try:
+        anyglyph = any(ttf.ref_unicode_pairs(data) or [])
+    except Exception:  # noqa: BLE001
+        anyglyph = False
+    # how many characters the real reader attaches to another glyph than the OpenType reading (harness's own reader)
+    differ = 0
+    if result == "ok":
+        try:
+            ref = {}
+            for sp in ttf.ref_unicode_pairs(data) or []:
+                ref.update(sp)
+            real = {c: g for c, g in c2g.items() if g}
+            differ = sum(1 for c in set(ref) | set(real) if ref.get(c) != real.get(c))
+        except Exception:  # noqa: BLE001
+            differ = 0
+    return {"origin": origin, "hascmap": hascmap, "subs": subs, "result": result, "obs": obs, "anyglyph": anyglyph,
+            "differ": differ,
             "inv": [[g, ch] for g, ch in invs if (ch, g) in okset], "nchars": len(chars)}
